@@ -663,9 +663,7 @@ class C13(Check):
 
     @staticmethod
     def buffered(P):
-        # replies are ~100 kB; vlib's Probe reads its pipe unbuffered (one syscall per byte)
-        if not isinstance(P.rf, io.BufferedReader):
-            P.rf = io.BufferedReader(P.p.stdout, 1 << 20)
+        # (vlib's Probe used to read its pipe byte by byte; it now reads in 64 kB chunks itself)
         return P
 
     def run(self, case, ctx):
